@@ -762,6 +762,26 @@ def gen_dead(rng):
     return sc
 
 
+def gen_exdead(rng):
+    """exact arithmetic mode run until deadlock (times to deadlock are Decimals)"""
+    sc = gen_dead(rng)
+    sc["exact"] = rng.choice([10, 14, 20])
+    sc["dec"] = 1
+    return sc
+
+
+def gen_pbar(rng):
+    """runs with the progress bar switched on (float and exact mode, time and customer-count stops)"""
+    r = rng.random()
+    sc = gen_exact(rng) if r < 0.4 else (gen_stopcount(rng) if r < 0.7 else gen_core1(rng))
+    for nd in sc["nodes"]:
+        if nd.get("kind") == "sched":
+            nd["kind"] = "std"
+            nd["c"] = 1
+    sc["pbar"] = 1
+    return sc
+
+
 def gen_exact(rng):
     """exact arithmetic mode on ordinary nodes: decimal samples with 1-2 digits"""
     base = rng.choice([gen_core1, gen_tandem, gen_prio, gen_renege, gen_sched, lambda r: gen_sched(r, pre_choices=(1, 2, 3)),
@@ -1099,6 +1119,8 @@ def gen_stopcount(rng):
 
 
 FAMILIES = {
+    "exdead": gen_exdead,
+    "pbar": gen_pbar,
     "fpbjsq": gen_fpbjsq,
     "exactT": gen_exactT,
     "slotpreblock": gen_slotpreblock,
